@@ -45,7 +45,7 @@ type GRemoteAccess struct {
 	Split    *GACL // standard ACL
 	PoolName string
 	PoolDef  string
-	WebVPN   bool // also in certificate-group-map of webvpn
+	WebVPN   bool   // also in certificate-group-map of webvpn
 	UseTG    string // device only: bound to the tunnel-group of another entry; own objects absent
 }
 
